@@ -311,7 +311,7 @@ func h8(b []byte) string {
 }
 
 // SessDump is the canonical dump of one session (all fields a property can observe).
-func sessDump(s *Sess, lab func(uint64) string) string {
+func sessDump(s *Sess, lab func(uint64) string, noSeq ...bool) string {
 	var sb strings.Builder
 	node := "?"
 	if s.rnode != nil {
@@ -351,6 +351,9 @@ func sessDump(s *Sess, lab func(uint64) string) string {
 	sb.WriteString(" URR[")
 	for _, id := range urr {
 		u := s.URRIDs[uint32(id)]
+		if len(noSeq) > 0 && noSeq[0] {
+			u = &URRInfo{removed: u.removed, MeasureMethod: u.MeasureMethod, MeasureInformation: u.MeasureInformation, refPdrNum: u.refPdrNum}
+		}
 		fmt.Fprintf(&sb, "%d:{rm=%v seq=%d ref=%d m=%v%v%v i=%v%v%v%v%v} ", id, u.removed, u.SEQN, u.refPdrNum,
 			b2i(u.DURAT), b2i(u.VOLUM), b2i(u.EVENT), b2i(u.MBQE), b2i(u.INAM), b2i(u.RADI), b2i(u.ISTM), b2i(u.MNOP))
 	}
@@ -430,6 +433,7 @@ type DumpOpt struct {
 	// in which SEID value a session got (Go map iteration order decides the free-list order when a node
 	// is reset) are the same state up to renaming of SEIDs, and no oracle depends on the value.
 	Label func(uint64) string
+	NoSeq bool // leave out the per-URR UR-SEQN counters (properties that cannot observe them)
 }
 
 func rawLabel(x uint64) string { return fmt.Sprintf("%#x", x) }
@@ -461,7 +465,7 @@ func (v *VServer) Dump(o DumpOpt) string {
 			if x == nil {
 				fmt.Fprintf(&sb, "slot %d nil\n", i+1)
 			} else {
-				fmt.Fprintf(&sb, "slot %d %s\n", i+1, sessDump(x, lab))
+				fmt.Fprintf(&sb, "slot %d %s\n", i+1, sessDump(x, lab, o.NoSeq))
 			}
 		}
 	} else {
@@ -477,7 +481,7 @@ func (v *VServer) Dump(o DumpOpt) string {
 		var ds []string
 		for i, x := range s.lnode.sess {
 			if x != nil {
-				d := sessDump(x, lab)
+				d := sessDump(x, lab, o.NoSeq)
 				if x.LocalID != uint64(i+1) {
 					d += fmt.Sprintf(" MISPLACED(slot %d holds LocalID %#x)", i+1, x.LocalID)
 				}
